@@ -101,9 +101,18 @@ pub struct KnownEntry {
 
 impl Known {
     pub fn load() -> Known {
-        let path = format!("{}/known_findings.json", VERIF_ROOT);
+        let mut paths = vec![format!("{}/known_findings.json", VERIF_ROOT)];
+        if let Ok(rd) = std::fs::read_dir(format!("{}/known_findings.d", VERIF_ROOT)) {
+            let mut extra: Vec<String> = rd.filter_map(|e| e.ok()).map(|e| e.path().display().to_string()).filter(|p| p.ends_with(".json")).collect();
+            extra.sort();
+            paths.extend(extra);
+        }
         let mut entries = Vec::new();
-        if let Ok(txt) = std::fs::read_to_string(&path) {
+        for path in paths {
+            let txt = match std::fs::read_to_string(&path) {
+                Ok(t) => t,
+                Err(_) => continue,
+            };
             let v: Value = serde_json::from_str(&txt).unwrap_or_else(|e| infra(&format!("known_findings.json: {e}")));
             for e in v["findings"].as_array().cloned().unwrap_or_default() {
                 let mut witnesses = Vec::new();
